@@ -166,7 +166,9 @@ func MassagePathError(basePath string, err error) error {
 // the path is invalid.
 func ResolvePath(base, path, op string) (string, error) {
 	path = filepath.Clean(path)
-	if strings.HasPrefix(path, "..") {
+	// A cleaned path leaves the base if its first component is "..". Names
+	// that merely begin with two dots ("..a", "...") do not.
+	if path == ".." || strings.HasPrefix(path, ".."+string(filepath.Separator)) {
 		return "", &fs.PathError{
 			Op:   op,
 			Path: path,
